@@ -364,6 +364,72 @@ func splitTop(s string, sep byte) []string {
 // evalDesignator turns an assigns item (x.f, x.f[*], x[*], *p, x.*) into heap names and roots.
 func (ex *Exec) evalDesignator(text string, env *SpecEnv) []designator {
 	text = strings.TrimSpace(text)
+	if i := strings.LastIndex(text, " if "); i > 0 {
+		// guarded designator: names the location only when the condition holds
+		ce, err := ParseExpr(text[i+4:])
+		if err != nil {
+			ex.specFail("assigns %s: %v", text, err)
+		}
+		cond := ex.evalBool(ce, env)
+		ds := ex.evalDesignator(text[:i], env)
+		for j := range ds {
+			if !ds[j].all {
+				ds[j].root = Ite(cond, ds[j].root, IntLit(-999999))
+			}
+		}
+		return ds
+	}
+	if strings.HasPrefix(text, "allfields(") && strings.HasSuffix(text, ")") {
+		// field f of every object of struct type T: allfields(pkg.T.f)
+		arg := text[len("allfields(") : len(text)-1]
+		i := strings.LastIndex(arg, ".")
+		if i < 0 {
+			ex.specFail("assigns %s: allfields(T.f) expected", text)
+		}
+		te, err := parseTypeText(arg[:i])
+		if err != nil {
+			ex.specFail("assigns %s: %v", text, err)
+		}
+		t, err := ex.prog.lookupType(te, env.pkg)
+		if err != nil {
+			ex.specFail("assigns %s: %v", text, err)
+		}
+		st, ok := under(t).(*types.Struct)
+		if !ok {
+			ex.specFail("assigns %s: not a struct type", text)
+		}
+		var out []designator
+		for fi := 0; fi < st.NumFields(); fi++ {
+			if st.Field(fi).Name() != arg[i+1:] {
+				continue
+			}
+			for _, l := range leavesOf(st.Field(fi).Type()) {
+				n, _ := fieldHeap(t, append([]int{fi}, l.Path...))
+				out = append(out, designator{heap: n, all: true})
+			}
+		}
+		if len(out) == 0 {
+			ex.specFail("assigns %s: no such field", text)
+		}
+		return out
+	}
+	if strings.HasPrefix(text, "elems(") && strings.HasSuffix(text, ")") {
+		// every array whose elements have the given type
+		te, err := parseTypeText(text[len("elems(") : len(text)-1])
+		if err != nil {
+			ex.specFail("assigns %s: %v", text, err)
+		}
+		t, err := ex.prog.lookupType(te, env.pkg)
+		if err != nil {
+			ex.specFail("assigns %s: %v", text, err)
+		}
+		var out []designator
+		for _, l := range leavesOf(t) {
+			n, _ := elemHeap(t, l.Path)
+			out = append(out, designator{heap: n, all: true})
+		}
+		return out
+	}
 	if strings.HasSuffix(text, "[*]") {
 		e, err := ParseExpr(strings.TrimSuffix(text, "[*]"))
 		if err != nil {
